@@ -930,6 +930,10 @@ func splitInlineBox(context *layoutContext, box_ Box, positionX, maxX, bottomSpa
 
 			marginWidth := newChild.Box().MarginWidth()
 			newPositionX := newChild.Box().PositionX + marginWidth
+			if newPositionX > maxX && !trailingWhitespace && bo.InlineT.IsInstance(newChild) {
+				// an inline box ending with collapsible spaces: they hang as well
+				trailingWhitespace = newPositionX-trailingWhitespaceSize(context, newChild) <= maxX
+			}
 			if newPositionX > maxX && !trailingWhitespace {
 				previousResumeAt := breakWaitingChildren(context, box_, bottomSpace, initialSkipStack, absoluteBoxes, fixedBoxes,
 					linePlaceholders, waitingFloats, lineChildren, &children, waitingChildren)
